@@ -997,7 +997,9 @@ class Engine(object):
                     for d in n.decorator_list:
                         if isinstance(d, ast.Name) and d.id in ("property", "staticmethod", "classmethod"):
                             kind = d.id
-                    return FuncV(n, c.mod, cls=c.node, qual=c.node.name + "." + attr), kind
+                    loc = getattr(self, "local_classes", None)
+                    clo = loc[c.node.name][2] if (loc and c.node.name in loc and loc[c.node.name][0] is c.node) else None
+                    return FuncV(n, c.mod, closure=clo, cls=c.node, qual=c.node.name + "." + attr), kind
             for b in c.node.bases:
                 if isinstance(b, ast.Name):
                     try:
@@ -1030,6 +1032,9 @@ class Engine(object):
         return None
 
     def class_by_name(self, clsname):
+        loc = getattr(self, "local_classes", None)
+        if loc and clsname in loc:
+            return ClassRef(loc[clsname][0], loc[clsname][1])
         reg = self.options.get("classes", {})
         if clsname in reg:
             mi, node, _ = reg[clsname]
@@ -1706,6 +1711,10 @@ class Engine(object):
                 if fv.cls is not None and fv.qual and args and fv.qual in self.externals:
                     # Class.method(obj, ...): the unbound call of a method that the contract declares external
                     return [(s2, val) for s2, val, _ in self.externals[fv.qual](self, args[0], list(args[1:]), kwargs, st, node)]
+            if isinstance(fv.bound, ClassRef) and not isinstance(fv.node, ast.Lambda):
+                ext = self.externals.get("def:" + fv.node.name)      # a class method (Class.make(...)) replaced by an assumed contract
+                if ext is not None:
+                    return ext(self, args, kwargs, st, node)
             return self.call_function(fv, args, kwargs, st, node)
         if isinstance(fv, (PyObj, BoundBuiltin, ClassRef)):
             return builtins_model.call_builtin(self, fv, args, kwargs, st, node)
@@ -2203,6 +2212,22 @@ class Engine(object):
 
     def st_FunctionDef(self, node, st):
         return [("normal", st.set(node.name, FuncV(node, self.cur_mod, closure=st.env, qual=node.name)), None)]
+
+    def st_ClassDef(self, node, st):
+        """a class defined inside a function (a small record / callable holder, e.g. the callback object of send_scp): plain
+        class - no bases but object, no decorators, no metaclass -, body of methods (and a docstring) only; its methods see the
+        enclosing function's variables as they are when the class is defined"""
+        plain = (not node.decorator_list and not node.keywords
+                 and all(isinstance(b, ast.Name) and b.id == "object" for b in node.bases)
+                 and all(isinstance(n, ast.FunctionDef) and not n.decorator_list
+                         or (isinstance(n, ast.Expr) and isinstance(n.value, ast.Constant) and isinstance(n.value.value, str))
+                         for n in node.body))
+        if not plain:
+            raise EngineError("local class %s is not a plain class of methods (line %d)" % (node.name, node.lineno))
+        if not hasattr(self, "local_classes"):
+            self.local_classes = {}
+        self.local_classes[node.name] = (node, self.cur_mod, st.env)
+        return [("normal", st.set(node.name, ClassRef(node, self.cur_mod)), None)]
 
     def st_Return(self, node, st):
         if node.value is None:
